@@ -486,6 +486,8 @@ structure LPDomain (F : FloatCodec) (p : SPoint) : Prop where
   tags : ∀ kv ∈ p.tags, kv.1 ≠ [] ∧ BS ∉ kv.1 ∧ kv.2 ≠ [] ∧ BS ∉ kv.2
   fields_ne : p.fields ≠ []
   fkeys : ∀ kv ∈ p.fields, kv.1 ≠ [] ∧ BS ∉ kv.1
+  /-- the field section must not begin with whitespace the parser skips (finding `stream-whitespace-fieldkey`) -/
+  fkey_head : ∀ kv, p.fields.head? = some kv → ∀ c, kv.1.head? = some c → c ≠ TAB ∧ c ≠ 0
   vals : ∀ kv ∈ p.fields, ValOK F kv.2
   tagsSorted : sortKV p.tags = p.tags
   fieldsSorted : sortKV p.fields = p.fields
@@ -640,7 +642,7 @@ theorem parseLine_lineOf (F : FloatCodec) (mult : Int) (p : SPoint) (hd : LPDoma
     cases h : p.fields with
     | nil => exact absurd h hd.fields_ne
     | cons kv r => exact ⟨kv, r, rfl⟩
-  obtain ⟨f0, ftl, hFLhead, hf0⟩ : ∃ c tl, FL = c :: tl ∧ c ≠ SP := by
+  obtain ⟨f0, ftl, hFLhead, hf0⟩ : ∃ c tl, FL = c :: tl ∧ c ≠ SP ∧ c ≠ TAB ∧ c ≠ 0 := by
     have hk0 := (hd.fkeys kv0 (by rw [hfields]; simp)).1
     obtain ⟨c, r, hk⟩ : ∃ c r, kv0.1 = c :: r := by
       cases h : kv0.1 with
@@ -649,11 +651,12 @@ theorem parseLine_lineOf (F : FloatCodec) (mult : Int) (p : SPoint) (hd : LPDoma
     obtain ⟨tl, htl⟩ := escBy_head (fun c => c = COMMA ∨ c = DQ ∨ c = SP ∨ c = EQ) c r
     refine ⟨(if c = COMMA ∨ c = DQ ∨ c = SP ∨ c = EQ then BS else c), tl ++ EQ :: renderFV F kv0.2 ++ (fr.map (fieldChunk F)).flatMap (fun y => COMMA :: y), ?_, ?_⟩
     · rw [hFL, hfields, List.map_cons, joinWith_flat, fieldChunk, hk, escKey_eq, htl]; simp
-    · by_cases hc : c = COMMA ∨ c = DQ ∨ c = SP ∨ c = EQ
+    · have hh := hd.fkey_head kv0 (by rw [hfields]; rfl) c (by rw [hk]; rfl)
+      by_cases hc : c = COMMA ∨ c = DQ ∨ c = SP ∨ c = EQ
       · rw [if_pos hc]; decide
-      · rw [if_neg hc]; exact fun e => hc (Or.inr (Or.inr (Or.inl e)))
-  have hdrop1 : (FL ++ SP :: T).dropWhile (fun x => decide (x = SP)) = FL ++ SP :: T := by
-    rw [hFLhead]; exact dropWhile_head _ _ _ (by simp [hf0])
+      · rw [if_neg hc]; exact ⟨fun e => hc (Or.inr (Or.inr (Or.inl e))), hh.1, hh.2⟩
+  have hdrop1 : skipWS (FL ++ SP :: T) = FL ++ SP :: T := by
+    rw [hFLhead]; simp [skipWS, hf0.1, hf0.2.1, hf0.2.2]
   have hsplit2 : splitUnesc SP true (FL ++ SP :: T) false = (FL, some T) :=
     split_at SP true (by decide) (by decide) _ FL false T (Nat.le_refl _) scanFL
   -- the timestamp
